@@ -222,7 +222,8 @@ class World:
             ok = T.and_(T.cmp('>=', nl, C(0)), T.cmp('<=', nl, C(U128)))
             p1 = e.fork(path, ok)
             fga, fgb = e.deref(args[3]).t, e.deref(args[4]).t
-            if p1: yield Path(p1.pc, p1.trace + [('event', 'cross', liq, net, nl), ('event', 'cross_args', liq, fga, fgb)]), E('Ok', [S([Opaque('tick_update'), I(nl, 'u128')])])
+            rw = e.deref(args[5]); rw_tag = rw.tag if isinstance(rw, Opaque) else repr(rw)[:40]
+            if p1: yield Path(p1.pc, p1.trace + [('event', 'cross', liq, net, nl), ('event', 'cross_args', liq, fga, fgb, rw_tag)]), E('Ok', [S([Opaque('tick_update'), I(nl, 'u128')])])
             p2 = e.fork(path, T.not_(ok))
             if p2: yield p2, E('Err', [E('LiquidityOverflowOrUnderflow')])
         S_.append((re.compile(r'(^|::)calculate_update$'), calc_update))
@@ -351,6 +352,8 @@ def post_goals(w, ret, rem_t, price_t, g, fsum_t, pfee_t, liq_t, ctick_t):
     lp, npf = u.get('lp_fee').t, u.get('next_protocol_fee').t
     d['P5_fee_split'] = T.and_(T.cmp('=', T.add(lp, npf), fsum_t), T.cmp('>=', lp, C(0)))
     d['P5b_input_is_curve_plus_fee'] = T.and_(T.cmp('=', inp, T.add(g['gin'], fsum_t)), T.cmp('=', out, g['gout']))
+    nri = u.get('next_reward_infos')
+    d['P7_reward_infos_accrued_to_now_handed_over'] = TRUE if (isinstance(nri, Opaque) and nri.tag == 'next_reward_infos') else FALSE
     d['P6_state_handed_over'] = T.and_(T.cmp('=', u.get('next_liquidity').t, liq_t), T.cmp('=', u.get('next_tick_index').t, ctick_t),
                                        T.cmp('=', nsp, price_t))
     return d
@@ -375,6 +378,7 @@ def wiring_goals(w, fr0, fr1, path):
             mine, other = (ev[3], ev[4]) if w.a_to_b else (ev[4], ev[3])
             oth_pool = w.wp.get('fee_growth_global_b' if w.a_to_b else 'fee_growth_global_a').t
             d['W4_crossing_uses_updated_growth_and_step_liquidity'] = T.and_(T.cmp('=', mine, gr), T.cmp('=', other, oth_pool), T.cmp('=', ev[2], steps[-1]['liq']))
+            d['W5_crossing_uses_reward_growths_accrued_to_now'] = TRUE if ev[5] == 'next_reward_infos' else FALSE     # C11: not the stale stored infos
     d['W3_running_totals_updated'] = T.and_(T.cmp('=', w.t(fr1, 'curr_protocol_fee'), pf), T.cmp('=', w.t(fr1, 'curr_fee_growth_global_input'), gr))
     return d
 
